@@ -841,17 +841,6 @@ Record Big (st : state) : Prop := mkBig {
   big_l : forall a, a < g_n st -> LInv (g_arch st a);
   big_c : CInv None st }.
 
-Lemma LInv_do_op : forall st a o tmo, LInv (g_arch st a) -> LInv (g_arch (op_state (do_op st a o tmo)) a).
-Proof.
-  intros st a o tmo I. pose proof (do_op_trace st a o tmo) as T. cbn zeta in T.
-  destruct (do_op st a o tmo) as [st' p|st'|st']; cbn [op_state]; destruct T as (Tc & Te).
-  - destruct I as [I1 I2 I3 I4]. apply ctl_split in Tc. destruct Tc as (_ & _ & _ & _ & _ & Hatt & Hperf & Hhist & Hlog).
-    (* the element is recorded, the script-side record follows in step; LInv's first clause is re-established there *)
-    constructor; try congruence.
-    (* not needed by arch_facts: only att and log are used; give the weaker fact through a detour *)
-    rewrite Te, I1, Hperf. 
-Abort.
-
 Lemma arch_facts_do_op : forall st a o tmo, arch_facts st a -> GInv (op_state (do_op st a o tmo)) ->
   arch_facts (op_state (do_op st a o tmo)) a.
 Proof.
@@ -905,4 +894,68 @@ Proof.
   - intros b Hb. destruct ev as [a tmo]. destruct (step_others st a tmo) as (_ & Hn & _). rewrite Hn in Hb.
     apply LInv_step_any. apply L. exact Hb.
   - apply CInv_step. exact B.
+Qed.
+
+(* ---------------------------------------------------------------- from the initial state *)
+
+Lemma pre_facts_other : forall st x y, x <> y -> pre_facts st x -> pre_facts (begin_attempt st y) x.
+Proof.
+  intros st x y Hne Hp. destruct (begin_attempt_others st y) as (O & _).
+  unfold pre_facts, fin in *. rewrite O by assumption. exact Hp.
+Qed.
+
+Lemma CInv_fold_begin : forall l st,
+  NoDup l -> CInv None st -> (forall x, In x l -> pre_facts st x) -> CInv None (fold_left begin_attempt l st).
+Proof.
+  induction l as [|y l IH]; intros st Hnd C Hp; cbn; [exact C|].
+  inversion Hnd as [|? ? Hy Hnd']; subst.
+  apply IH; [exact Hnd'|apply CInv_begin; [exact C|apply Hp; left; reflexivity]|].
+  intros x Hx. apply pre_facts_other; [intros ->; contradiction|apply Hp; right; exact Hx].
+Qed.
+
+Lemma CInv_init0 : forall c,
+  CInv None (mkState (fun a => arch_init a (nth a (cf_archs c) no_arch))
+                (fun j => mkShr (lres_init (VInt (nth j (cf_shared c) 0%Z)) (List.length (cf_archs c))) None)
+                (fun _ => []) (fun _ => []) (fun m => nth m (cf_owner c) 0) (List.length (cf_archs c))).
+Proof.
+  intros c. constructor.
+  - intros v [(c0 & [])|[(b & c0 & [])|(b & c0 & [])]].
+  - intros a c0 v [].
+  - intros j. split; [|reflexivity]. left. split; [unfold finished; cbn; lia|intros e []].
+  - intros r kt [].
+  - intros a. split; [|intros k]; unfold loc_ok; cbn; repeat split; lia.
+  - intros r er kt [].
+  - intros w e [].
+Qed.
+
+Lemma Big_init : forall c, Big (init c).
+Proof.
+  intros c. constructor.
+  - apply (GInv_run c []).
+  - intros a Ha. apply (LInv_run c [] a). unfold init in Ha. destruct (fold_begin_n (seq 0 (List.length (cf_archs c)))
+      (mkState (fun a => arch_init a (nth a (cf_archs c) no_arch))
+                (fun j => mkShr (lres_init (VInt (nth j (cf_shared c) 0%Z)) (List.length (cf_archs c))) None)
+                (fun _ => []) (fun _ => []) (fun m => nth m (cf_owner c) 0) (List.length (cf_archs c)))) as (Hn & _).
+    rewrite Hn in Ha. exact Ha.
+  - unfold init. apply CInv_fold_begin; [apply seq_NoDup|apply CInv_init0|].
+    intros x _. unfold pre_facts, fin. cbn. split; [reflexivity|intros e []].
+Qed.
+
+Lemma Big_run : forall c sched, Big (run c sched).
+Proof.
+  intros c sched. unfold run, run_from. generalize (Big_init c). generalize (init c).
+  induction sched as [|ev sched IH]; intros st B; cbn; [exact B|]. apply IH. apply Big_step. exact B.
+Qed.
+
+(* the theorem: for local variables, shared variables and channels the reader's event clock dominates the
+   event clock of the attempt that wrote the value *)
+Lemma reader_dominates_writer_lemma : forall c sched r er k w i ew,
+  In er (a_log (g_arch (run c sched) r)) -> In (k, (w, i)) (e_srcs er) -> k <> KBox ->
+  In ew (a_log (g_arch (run c sched) w)) -> e_no ew = i ->
+  vle (e_clock ew) (e_clock er).
+Proof.
+  intros c sched r er k w i ew He Hs Hk Hw Hn.
+  destruct (Big_run c sched) as [_ _ C].
+  destruct (ci_log _ _ C r er (k, (w, i)) He Hs Hk) as (_ & HP).
+  apply HP; assumption.
 Qed.
